@@ -126,7 +126,7 @@ def loop_predicted(datagrams):
     from harness.common import run_driver
 
     datagrams = list(dict.fromkeys(datagrams))
-    first = run_driver([{"op": "ber.tree", "data": dg.hex(), "fuel": 2000, "depth": 12} for dg in datagrams])
+    first = run_driver([{"op": "ber.tree", "data": dg.hex(), "fuel": len(dg) + 16, "depth": 12} for dg in datagrams])
     out, nested = {}, []
     for dg, a in zip(datagrams, first):
         t = a.get("ok")
@@ -134,7 +134,7 @@ def loop_predicted(datagrams):
         if isinstance(t, list) and t[:1] == ["seq"] and len(t[2]) >= 3 and t[2][2][0] == "str" and t[2][2][2]:
             nested.append((dg, t[2][2][2]))
     if nested:
-        second = run_driver([{"op": "ber.tree", "data": h, "fuel": 2000, "depth": 12} for _dg, h in nested])
+        second = run_driver([{"op": "ber.tree", "data": h, "fuel": len(h) // 2 + 16, "depth": 12} for _dg, h in nested])
         for (dg, _h), a in zip(nested, second):
             if a.get("ok") == ["error", "outOfFuel"]:
                 out[dg] = True
